@@ -32,7 +32,7 @@ func runC02(c *Ctx) {
 				key := siteKey(c.P, m.d, s, si, cls)
 				fn := core.FuncName(s.Fn)
 				pos := s.Alloc.Pos()
-				pstr := pi.Path.String()
+				pstr := pi.Desc
 				eqs := pathEqs(pi.Atoms)
 				mode := "any"
 				if m.roles.Relaxed != "" && cls.Form == "icmp-quote" {
@@ -43,7 +43,14 @@ func runC02(c *Ctx) {
 					case f && !sgn:
 						mode = "strict"
 					default:
-						R.FailPath("R02.3", key+"/switch", pos, fn, "ICMP-quote accept path does not consult the relaxed switch "+m.roles.Relaxed, pstr)
+						// the switch is not consulted on this path: whatever it accepts, it accepts in both modes
+						mode = "unswitched"
+					}
+				}
+				anySrcCmp := false
+				for _, e := range eqs {
+					if isInnerSrcAddr(e.A) || isInnerSrcAddr(e.B) || isQuotedSrcPort(e.A) || isQuotedSrcPort(e.B) || isOuterSrcViaICMPInfo(e.A) && hasLeaf(e.B, m.roles.LocalAddr) || isOuterSrcViaICMPInfo(e.B) && hasLeaf(e.A, m.roles.LocalAddr) {
+						anySrcCmp = true
 					}
 				}
 				fams := []string{cls.Family}
@@ -53,7 +60,16 @@ func runC02(c *Ctx) {
 				for _, fam := range fams {
 					switch cls.Form {
 					case "icmp-quote":
-						forms[fmt.Sprintf("icmp-quote/%s/%s/%s", fam, cls.ICMPType, mode)] = true
+						if mode == "unswitched" {
+							// with a source comparison it is the strict form (own-source quotes pass whatever the switch says);
+							// without one it serves both modes
+							forms[fmt.Sprintf("icmp-quote/%s/%s/strict", fam, cls.ICMPType)] = true
+							if !anySrcCmp {
+								forms[fmt.Sprintf("icmp-quote/%s/%s/relaxed", fam, cls.ICMPType)] = true
+							}
+						} else {
+							forms[fmt.Sprintf("icmp-quote/%s/%s/%s", fam, cls.ICMPType, mode)] = true
+						}
 					case "echo-reply":
 						forms["echo-reply/"+fam] = true
 					}
@@ -102,8 +118,10 @@ func runC02(c *Ctx) {
 					switch mode {
 					case "relaxed":
 						R.Check(!anySrc, "R02.3", key+"/relaxed", pos, fn, "relaxed path carries no quoted-source comparison", "relaxed path still compares the quoted source: NAT-rewritten quotes would be dropped")
-					case "strict", "any":
-						if innerSrc {
+					case "strict", "any", "unswitched":
+						if mode == "unswitched" && !anySrcCmp {
+							R.OK("R02.3", key+"/strict", pos, fn, "path neither consults the switch nor compares the quoted source: it accepts in both modes")
+						} else if innerSrc {
 							R.OK("R02.3", key+"/strict", pos, fn, "strict path compares the INNER quoted source with "+m.roles.LocalAddr)
 						} else {
 							det := "strict path does not compare the INNER quoted source (ICMPPair.SrcAddr) with the probe's own source " + m.roles.LocalAddr
